@@ -6,7 +6,16 @@ import sys
 
 V = os.path.dirname(os.path.dirname(os.path.abspath(__file__)))
 sys.path.insert(0, os.path.join(V, "gen"))
-from claims import CLAIMS, LEVEL_NOTE_COMMON  # noqa: E402
+from claims import LEVEL_NOTE_COMMON  # noqa: E402
+import importlib  # noqa: E402
+
+CLAIMS = {}
+for i in range(1, 21):
+    pid = "C%02d" % i
+    if os.path.exists(os.path.join(V, "gen", pid.lower() + ".py")):
+        mod = importlib.import_module(pid.lower())
+        if getattr(mod, "CLAIM", None):
+            CLAIMS[pid] = mod.CLAIM
 
 props = [json.loads(l) for l in open(os.path.join(V, "properties.jsonl"))]
 checks = []
